@@ -159,7 +159,16 @@ def body(chk, exe, scratch, proof_ok, detail):
                 sig = "%s@alloc%d" % (resfam.func_of(lost[0][0]), lost[0][1])
         if "X" in fc.get("out", ""):
             i = fc["out"].index("X")
-            bad.append("call #%d of the scenario (hash_check): an object that existed before the failed call no longer yields the digest of the bytes it absorbed" % (i + 1))
+            calls = [t.strip("[]").replace(",", " ") for t in c.split(" trace=", 1)[1].split() if t.startswith("[")] if " trace=" in c else []
+            line = calls[i] if i < len(calls) else "?"
+            changed = [x.split(":") for x in fc.get("chg", "").strip("[]").split(",") if x.count(":") == 2]
+            if line.startswith("hash_check") and not any(int(x[0]) == i + 1 for x in changed):
+                bad.append("call #%d of the scenario (hash_check): an object that existed before the failed call no longer yields the digest of the bytes it absorbed" % (i + 1))
+            else:
+                objs = ", ".join("the %s object in slot %s" % (x[2], x[1]) for x in changed if int(x[0]) == i + 1) or "an object"
+                bad.append("call #%d of the scenario (`%s`): %s, which existed before the call, does not read back as before it (contents compared through the public getters)" % (i + 1, line, objs))
+                if sig is None:
+                    sig = "%s@object-changed" % resfam.func_of(line.replace(" ", ","))
         if fc.get("badfree", "0") != "0":
             bad.append("free of a pointer the allocator did not hand out (%s)" % fc.get("badfree"))
         if fc.get("badclose", "0") != "0":
